@@ -407,10 +407,32 @@ class SciRun:
             if exp_int(b, param) and is_num(a) and a == 0:
                 if isinstance(op, (ast.Gt, ast.LtE)):
                     return small == isinstance(op, ast.Gt)
+            # the same read off the exponent text ('-05' / '+05': the exponent format always prints the sign)
+            if isinstance(op, (ast.Eq, ast.NotEq)):
+                if isinstance(a, Lit):
+                    a, b = b, a
+                if sign_char(a) and isinstance(b, Lit) and b.s in ("-", "+"):
+                    return (small == (b.s == "-")) == isinstance(op, ast.Eq)
+            if isinstance(op, (ast.In, ast.NotIn)) and isinstance(a, Lit) and a.s in ("-", "+") and exp_text(b):
+                return (small == (a.s == "-")) == isinstance(op, ast.In)
+            return None
+
+        def exp_text(v):
+            return isinstance(v, Piece) and v.which == "tail" and efmt_of(v, param) is not None
+
+        def sign_char(v):
+            return isinstance(v, Slice) and v.lo is None and as_int(v.hi) == 1 and exp_text(v.s)
+
+        def cond(test, st, eng):
+            if isinstance(test, ast.Call) and isinstance(test.func, ast.Attribute) and test.func.attr == "startswith" and len(test.args) == 1:
+                v = eng.ev(test, st)
+                if isinstance(v, Opaque) and v.name == ".startswith" and len(v.args) == 2 and exp_text(v.args[0]) and v.args[1] in (Lit("-"), Lit("+")):
+                    return small == (v.args[1].s == "-")
             return None
         follow = lambda name: True                        # noqa: E731
-        eng = Engine(ctx, BULK, fn, param=param, length=length, cmp=cmp, inline=follow)
-        self.leaves = expand_helpers(ctx, eng.run(iv), param, set(), inline=follow, hooks={"length": length, "cmp": cmp})
+        hooks = {"length": length, "cmp": cmp, "cond": cond}
+        eng = Engine(ctx, BULK, fn, param=param, inline=follow, **hooks)
+        self.leaves = expand_helpers(ctx, eng.run(iv), param, set(), inline=follow, hooks=hooks)
 
     def width(self, v, carry):
         """characters of a string value in this regime (worst case: nothing to strip but what the regime guarantees) or None"""
